@@ -143,3 +143,75 @@ def model_and_spec(draw, force=None, want_mc=None, want_mixed=None, collide=Fals
     vs = draw(valid_spec(sm, want_mc=want_mc, want_mixed=want_mixed, explicit=explicit,
                          req_form=req_form, shadow=shadow))
     return {'sm': sm, 'spec': vs['spec'], 'semantics': vs['semantics']}
+
+
+# ---- build histories for the compile-based checks ---------------------------------------------
+
+def prior_builds(case, kinds=('edited', 'origin', 'semantics', 'plain')):
+    """Builds performed (with the same Builder, in the same process) *before* the build under
+    test, in the order of `kinds`.  Each entry is {'spec': spec, 'model': model | None}; model
+    None = the very parsed contents of the build under test.  What the checked build must deliver
+    does not depend on them (C08 / C12), so every compile-based oracle applies unchanged."""
+    import copy
+    spec = {k: v for k, v in case['spec'].items() if k != '_prior'}
+    out = []
+    for kind in kinds:
+        s2 = copy.deepcopy(spec)
+        model = None
+        if kind == 'origin':
+            s2['origin'] = 'IMPORT' if spec['origin'] == 'CREATE' else 'CREATE'
+        elif kind == 'semantics':
+            flip = 'STS' if any(v == 'MTS' for v in case['semantics'].values()) else 'MTS'
+            if spec.get('mc'):
+                flip = 'MTS'
+            uni = {'sts': 'ALL', 'mts': 'NONE'} if flip == 'STS' else {'sts': 'NONE', 'mts': 'ALL'}
+            s2['prov'], s2['req'] = dict(uni), dict(uni)
+        elif kind == 'edited':
+            # an earlier revision of the same file: every interface lacks its last event (unless
+            # the multi-client configuration names it), same file name, parsed on its own
+            keep = set()
+            if spec.get('mc'):
+                keep = {spec['mc']['claim'], spec['mc']['release']}
+            model = copy.deepcopy(case['sm']['model'])
+
+            def rec(elems, keep=keep):
+                for e in elems:
+                    if e['k'] == 'ns':
+                        rec(e['elems'])
+                    elif e['k'] == 'interface' and len(e['events']) >= 2:
+                        for i in range(len(e['events']) - 1, -1, -1):
+                            if e['events'][i]['name'] not in keep:
+                                del e['events'][i]
+                                break
+            rec(model['root'])
+        out.append({'spec': s2, 'model': model})
+    return out
+
+
+def with_prior(case, kinds=('edited', 'origin', 'semantics', 'plain')):
+    import copy
+    c = dict(case)
+    c['spec'] = copy.deepcopy(case['spec'])
+    c['spec']['_prior'] = prior_builds(case, kinds)
+    return c
+
+
+def alternate_histories(cases, kinds):
+    """Every second drawn case is built after a history of earlier builds."""
+    return [with_prior(c, kinds) if i % 2 else c for i, c in enumerate(cases)]
+
+
+# ---- client identifiers of a multi-client port ------------------------------------------------
+# registration order = list order; families in which identifiers are prefixes of one another
+# (longer first / shorter first) and one in reverse lexical order
+CLIENT_NAMINGS = {
+    'plain': ['A', 'B', 'C', 'D'],
+    'K': ['K0', 'K1', 'K2', 'K3'],
+    'prefix-desc': ['client10', 'client1', 'client', 'c'],
+    'prefix-asc': ['p', 'panel', 'panel-left', 'panel-left-2'],
+    'reverse': ['z9', 'z', 'm', 'a'],
+}
+
+
+def client_names(naming, n):
+    return CLIENT_NAMINGS[naming or 'plain'][:n]
